@@ -38,6 +38,43 @@ CLAIMED = {
  "C12": ("proof", "4.C05", "LazyIntervalTree.get is proved to return exactly the current intervals and to leave no pending event in all "
          "three branches, whatever the number of pending events; every mutator under contract preserves the denotation invariant; "
          "so every lookup contract is a function of the current structure only."),
+ "C11": ("proof", "4.C11", "CFG.add/discard/clear/__contains__/__len__/__iter__/update and the per-block edge views are proved against an "
+         "assumed contract of networkx.MultiDiGraph (keyed multi-edges): the edge set is a set of (source, target, label) triples, "
+         "and a block's incoming/outgoing edges are exactly the edges with that endpoint. Mixin-derived operations and the protobuf "
+         "round trip of edges by the bounded lock-step stand-in."),
+ "C16": ("proof", "4.C16", "Primitives of the wrapper collections (ListWrapper/SetWrapper/DictWrapper, module list insert/append/remove/"
+         "__delitem__, node sets, _from_iterable, __or__) are proved to behave as the built-in list/set/dict on their contents while "
+         "maintaining ownership; the collections.abc mixin surface is compared in lock step with built-ins by the bounded stand-in."),
+ "C01": ("proof", "4.IO", "Proved for all inputs: the 8-byte header is written and checked as documented; block/symbol/symbolic-expression/"
+         "AuxData leaf writers and readers agree with the schema field by field, so their composition is the identity on those nodes. "
+         "The whole-IR round trip (container messages, decode order, CFG writer, deep_eq both ways, re-save) is covered by the bounded "
+         "stand-in only and is not counted as proved."),
+ "C02": ("proof", "4.IO", "Proved field by field for all objects/messages: header layout, DataBlock/CodeBlock/ProxyBlock/Symbol/SymAddrConst/"
+         "SymAddrAddr/AuxData writers and readers, the Block and SymbolicExpression one-ofs, the CFG edge reader, and the Python enum "
+         "tables against /repo/proto. Container bodies (IR, Module, Section, ByteInterval, CFG writer) under both protobuf back ends: "
+         "bounded stand-in."),
+ "C07": ("proof", "4.IO", "Integer (8 widths), bool, string, UUID and Offset codecs: encode and decode are proved against the wire-format "
+         "definition for all values and the round trip (value and byte count) is a lemma over the two contracts; Serialization.encode/"
+         "decode top level proved over abstract tree codecs. Container codecs, float/double and codec dispatch: bounded stand-in."),
+ "C08": ("proof", "4.IO", "Encode contracts state the appended bytes against the documented format and are proved for all values of the leaf "
+         "types; decode contracts give the value of conforming foreign bytes; AuxData._to_protobuf proved to write the encoding of the "
+         "current value under the current type name. Containers/floats: bounded byte-for-byte comparison with an independent encoder; "
+         "the Java codec is not executed."),
+ "C09": ("proof", "4.IO", "Proved for all tables and messages: decode-or-reuse by UUID with kind check for 7 node classes, symbol referents, "
+         "symbolic-expression symbols, CFG endpoints and AuxData UUID/Offset entries resolve to the very table entry; wrong kinds and "
+         "missing nodes raise DeserializationError. Module entry points and whole-file identity: bounded stand-in."),
+ "C14": ("proof", "4.IO", "The AuxData cell (lazy container, data getter/setter, _from_protobuf, _to_protobuf) and the top level of "
+         "Serialization.encode/decode (UnknownData pass-through, unknown codec while encoding is EncodeError) are proved for all "
+         "states: never-read + same type name reuses the loaded bytes, otherwise the current value is encoded under the current type "
+         "name, unknown types keep their bytes. Multi-generation histories and nested unknown names: bounded stand-in."),
+ "C15": ("other", "4.IO", "Bounded stand-in, not a proof: every string over {a,b,<,>,','} up to length 6 (quick) / 8 (thorough) plus random "
+         "perturbed names is compared with an independent recursive-descent parser. Deductively only the wrapper is proved (tokenised "
+         "with the documented expression, accepted iff exactly one root, every rejection a TypeNameError); the recursive sibling parser "
+         "is outside the verifier's reach (regular expressions, recursion over list slices)."),
+ "C17": ("proof", "4.IO", "Proved for all byte strings/messages: bad magic, short file or wrong version byte is a ValueError before anything is "
+         "parsed; a wrong version field is a ValueError before anything is built; every leaf reader rejects wrong-length UUIDs, dangling "
+         "and ill-typed references and unknown enum numbers with the stated exception. Coherence of what load returns for corrupted "
+         "files (truncations, bit flips, structural faults): bounded stand-in."),
 }
 
 checks = []
@@ -57,8 +94,7 @@ for p in props:
             "technique": "contract-based deductive verification: VCs generated from the real Python AST against sidecar contracts, "
                          "discharged by z3/cvc5; bounded executable-oracle stand-in for functions outside the contracts",
         })
-na = [{"property_id": p["id"], "reason": "check under construction in this session (contracts not yet written); see DESIGN.md section 8"}
-      for p in props if p["id"] not in CLAIMED]
+na = [{"property_id": p["id"], "reason": "not claimed; see DESIGN.md"} for p in props if p["id"] not in CLAIMED]
 m = {"version": 1, "setup_cmd": "bash tools/setup.sh",
      "hooks": {"guard": "GTIRB_VERIF", "enable": "none needed: contracts are sidecars under /verif/contracts; no file under /repo is instrumented",
                "baseline_off_cmd": "cd /repo && /venv/bin/python -m pytest -ra -q -p no:cacheprovider --timeout=900 --continue-on-collection-errors",
